@@ -172,7 +172,7 @@ def check_get_formatting(ctx, model, cov, tup):
     from PIL import ImageColor
 
     rng = ctx.rng
-    bgs = list(BACKGROUNDS) + [rng.randrange(256) for _ in range(ctx.pick(10, 256))] + ["#%06x" % rng.randrange(2**24) for _ in range(ctx.pick(10, 300))]
+    bgs = list(BACKGROUNDS) + [0, 1, 255] + [rng.randrange(256) for _ in range(ctx.pick(10, 256))] + ["#%06x" % rng.randrange(2**24) for _ in range(ctx.pick(10, 300))]
 
     def child():
         common.scrub_process_env()
@@ -180,12 +180,21 @@ def check_get_formatting(ctx, model, cov, tup):
         os.environ["XDG_STATE_HOME"] = os.path.join(ctx.work, "state")
         os.environ["XDG_CONFIG_HOME"] = os.path.join(ctx.work, "config")
         import tupimage
-        t = tupimage.TupimageTerminal(out_command=common.RecStream(), out_display=common.RecStream(), in_response=open("/dev/tty", "rb", buffering=0),
+        # two terminals: the configured default background is "none" for one and palette colour 7 for the other — an explicit
+        # per-call background (0 and the empty byte string included) wins over either
+        tty_in = open("/dev/tty", "rb", buffering=0)
+        t = tupimage.TupimageTerminal(out_command=common.RecStream(), out_display=common.RecStream(), in_response=tty_in,
                                       id_database=os.path.join(ctx.work, "c13.db"))
+        t7 = tupimage.TupimageTerminal(out_command=common.RecStream(), out_display=common.RecStream(), in_response=tty_in,
+                                       id_database=os.path.join(ctx.work, "c13.db"), config="DEFAULT", background=7)
         out = []
         for bg in bgs:
             f = t.get_formatting(bg)
-            out.append("N" if f is None else "B:" + hexs(f))
+            f7 = t7.get_formatting(bg)
+            out.append(("N" if f is None else "B:" + hexs(f)) + "|" + ("N" if f7 is None else "B:" + hexs(f7)))
+        raw = [b"", b"\x1b[48;5;9m"]
+        rawres = [[("N" if x.get_formatting(b) is None else hexs(x.get_formatting(b))) for x in (t, t7)] for b in raw]
+        out.append(rawres)
         # the configured default is used for None
         out.append("N" if t.get_formatting(None) is None else "B:" + hexs(t.get_formatting(None)))
         return out
@@ -204,7 +213,25 @@ def check_get_formatting(ctx, model, cov, tup):
             rgb = ImageColor.getrgb(bg)
             reqs.append("c13.get_formatting rgb:%d,%d,%d" % rgb[:3])
     reps = model.batch(reqs)
-    for bg, got, rep in zip(bgs, r["ok"], reps):
+    rawres = r["ok"][len(bgs)]
+    for b_, pair in zip([b"", b"\x1b[48;5;9m"], rawres):
+        cov.add({"get_formatting": "bytes", "value": hexs(b_)}, klass="get_formatting/bytes")
+        if any(x != hexs(b_) for x in pair):
+            ctx.violations.append({"signature": {"class": "get_formatting-wrong-background"},
+                                   "what": f"get_formatting({b_!r}) (formatting bytes given by the caller) returns {pair} on terminals configured with background none / 7", "case": {"kind": "get_formatting", "bg": hexs(b_)}})
+    r["ok"] = [x for i, x in enumerate(r["ok"]) if i != len(bgs)]
+    for bg, got2, rep in zip(bgs, r["ok"], reps):
+        got, got7 = got2.split("|")
+        if isinstance(bg, int):
+            want = "B:" + hexs(b"\x1b[48;5;%dm" % bg)
+        elif bg.lower() == "none":
+            want = "N"
+        else:
+            want = "B:" + hexs(b"\x1b[48;2;%d;%d;%dm" % ImageColor.getrgb(bg)[:3])
+        if got != want or got7 != want:
+            ctx.violations.append({"signature": {"class": "get_formatting-wrong-background"},
+                                   "what": f"get_formatting({bg!r}) is {got} / {got7} (terminal configured with background none / 7); the background asked for is {want}",
+                                   "case": {"kind": "get_formatting", "bg": bg}})
         cov.add({"get_formatting": bg}, nontrivial=got != "N", klass="get_formatting/" + ("int" if isinstance(bg, int) else ("none" if str(bg).lower() == "none" else "colour-string")))
         if got != rep:
             ctx.corr_breaks.append({"what": "TupimageTerminal.get_formatting differs from Model.get_formatting", "case": bg, "impl": got, "model": rep})
